@@ -408,4 +408,18 @@ brk("C16", "c16-replace-regions-stops-at-p", LCD, "  for child in element:\n    
 brk("C15", "c15-detach-root-region-only", MODEL, "    for e in self.dfs_iterator():\n      if doc is None:\n        e._region = None\n      e._doc = doc", "    if doc is None:\n      self._region = None\n    for e in self.dfs_iterator():\n      e._doc = doc", "PAIR-detach")
 brk("C17", "c17-find-code-dispatch-misses-attr", "ttconv/scc/word.py", "      return SccControlCode.find(self.value) or \\\n        SccAttributeCode.find(self.value) or \\\n", "      return SccControlCode.find(self.value) or \\\n        (SccAttributeCode.find(self.value) if self.byte_1 & 0x07 == 0 else None) or \\\n", "CLS")
 
+# ---------------------------------------------------------------------------------------- rules added after round 9
+brk("C05", "c05-framerate-only-for-frames", ELS, "    if frame_rate is not None:\n      imsc_attr.FrameRateAttribute.set(tt_element, frame_rate)", "    if frame_rate is not None and time_expression_syntax is imsc_attr.TimeExpressionSyntaxEnum.frames:\n      imsc_attr.FrameRateAttribute.set(tt_element, frame_rate)", "AGREE-framerate")
+brk("C06", "c06-escape-table-amp-last", "ttconv/vtt/style.py", '  return text.replace("&", "&amp;").replace("<", "&lt;").replace(">", "&gt;")', '  for char, escape in {"<": "&lt;", ">": "&gt;", "&": "&amp;"}.items():\n    text = text.replace(char, escape)\n  return text', "TAINT")
+ben("C07", "c07-benign-escape-table-amp-first", "ttconv/vtt/style.py", '  return text.replace("&", "&amp;").replace("<", "&lt;").replace(">", "&gt;")', '  for char, escape in (("&", "&amp;"), ("<", "&lt;"), (">", "&gt;")):\n    text = text.replace(char, escape)\n  return text')
+brk("C09", "c09-dropcount-nominal-fifteenth", "ttconv/time_code.py", "      drop_frames_per_minute = round(60 * (ndf_frame_rate - self._frame_rate))  # 2 at 29.97 fps\n\n      nb_of_minute_tens = self._hours", "      drop_frames_per_minute = round(ndf_frame_rate / 12)\n\n      nb_of_minute_tens = self._hours", "FIN-dropcount")
+brk("C10", "c10-ms-leading-zeros", "ttconv/srt/reader.py", "        Fraction(int(m.group('begin_ms')), 1000)", "        Fraction(\"0.\" + str(int(m.group('begin_ms'))))", "FIN-timeexpr")
+brk("C14", "c14-background-from-ttml-default", ISD, "    if bg_color is not None:\n      if bg_color.ident is not styles.ColorType.Colorimetry.RGBA8:", "    if bg_color is None:\n      return False\n    if bg_color is not None:\n      if bg_color.ident is not styles.ColorType.Colorimetry.RGBA8:", "ABSENT-style")
+brk("C16", "c16-mergekey-begin-not-normalised", LCD, "          region.get_begin() or 0,\n", "          region.get_begin(),\n", "FIN-mergekey")
+ben("C16", "c16-benign-mergekey-conditional", LCD, "          region.get_begin() or 0,\n", "          region.get_begin() if region.get_begin() is not None else 0,\n")
+brk2("C01", "c01-display-prune-before-initial", ISD, [("    # prune element is display is \"none\"\n\n    if isd_element.get_style(styles.StyleProperties.Display) is styles.DisplayType.none:\n      return None\n\n", ""), ("    # inherited styling\n", "    if isd_element.get_style(styles.StyleProperties.Display) is styles.DisplayType.none:\n      return None\n\n    # inherited styling\n")], "ORD-style")
+brk("C03", "c03-specified-overwrites-animated", ISD, "      if isd_element.has_style(spec_style_prop):\n        # skip if the style has already been set\n        continue\n", "", "PRI-style")
+ben("C03", "c03-benign-specified-guard-nested", ISD, "      if isd_element.has_style(spec_style_prop):\n        # skip if the style has already been set\n        continue\n\n      styles_to_be_computed.add(spec_style_prop)\n      isd_element.set_style(spec_style_prop, element.get_style(spec_style_prop))", "      if not isd_element.has_style(spec_style_prop):\n        styles_to_be_computed.add(spec_style_prop)\n        isd_element.set_style(spec_style_prop, element.get_style(spec_style_prop))")
+brk("C10", "c10-handle-data-splitlines", "ttconv/srt/reader.py", '    lines = data.split("\\n")', '    lines = data.splitlines()', "ORD-br")
+
 VARIANTS = V
